@@ -323,3 +323,61 @@ Proof.
   assert (0 <= Z.abs n) by lia.
   nia.
 Qed.
+
+(* ====================== H. decimal exponents ====================== *)
+(* Any accepted string whose scan is  M * 10^(ex - k)  (mantissa digits M, k fractional digits, decimal
+   exponent ex; "1e5", "1.5E-3", and the plain forms with ex = 0) with |ex - k| <= 27: the result is the
+   exact value M * 10^(ex-k) * 10^dd truncated toward zero -- the power of five is exact up to 5^27 and
+   the two away-from-zero roundings cancel as in [trunc_mul_round]. *)
+Lemma exponent_value s neg M k ex dd :
+  s <> [] -> parse_number s = Ok (NFin neg M k 10 ex) ->
+  0 < M -> -27 <= ex - k <= 27 -> 0 <= dd ->
+  M * 10 ^ Z.max 0 (ex - k) * 10 ^ dd * (2 * P512 + 1) < P512 * P512 ->
+  str_to_bigint_d s dd =
+  Ok (let t := M * 10 ^ Z.max 0 (ex - k) * 10 ^ dd / 10 ^ Z.max 0 (k - ex) in if neg then - t else t).
+Proof.
+  intros Hs Hp HM He Hdd Hb.
+  unfold str_to_bigint_d, str_to_bigint_gen. destruct s as [|c0 s0]; [congruence|]. rewrite Hp.
+  unfold float_of_number. destruct (Z.eqb_spec M 0); [lia|].
+  change (10 =? 10) with true. cbn iota.
+  unfold pow10. destruct (Z.ltb_spec dd 0); [lia|].
+  assert (HT : 0 < 10 ^ dd) by (apply Z.pow_pos_nonneg; lia).
+  assert (Hprec : 1 <= code_prec) by (unfold code_prec; lia).
+  unfold P512 in Hb. unfold code_mode.
+  set (e := ex - k) in *.
+  destruct (Z.eqb_spec e 0) as [E0 | E0].
+  - rewrite E0 in *. replace (k - ex) with 0 by lia. change (Z.max 0 0) with 0 in *. change (10 ^ 0) with 1 in *.
+    unfold frac_of at 1. cbn [be bm]. change (0 <=? 0) with true. cbn iota. change (2 ^ 0) with 1.
+    rewrite !Z.mul_1_r in *.
+    rewrite (trunc_mul_round code_prec neg M 1 (10 ^ dd)); try lia. reflexivity.
+  - destruct (Z.ltb_spec e 0) as [Hneg | Hpos].
+    + (* division by 5^(-e) *)
+      rewrite (pow5_small _ (- e)) by lia. cbn [be bm].
+      unfold frac_of at 1. cbn [be bm]. replace (e - 0) with e by lia.
+      destruct (Z.leb_spec 0 e); [lia|].
+      assert (E10 : 2 ^ (- e) * 5 ^ (- e) = 10 ^ (- e)) by (rewrite <- Z.pow_mul_l; reflexivity).
+      rewrite E10.
+      replace (Z.max 0 e) with 0 in * by lia. replace (Z.max 0 (k - ex)) with (- e) by lia.
+      change (10 ^ 0) with 1 in *. rewrite Z.mul_1_r in *.
+      assert (0 < 10 ^ (- e)) by (apply Z.pow_pos_nonneg; lia).
+      rewrite (trunc_mul_round code_prec neg M (10 ^ (- e)) (10 ^ dd)); try lia. reflexivity.
+    + (* multiplication by 5^e *)
+      rewrite (pow5_small _ e) by lia. cbn [be bm].
+      unfold frac_of at 1. cbn [be bm]. replace (e + 0) with e by lia.
+      destruct (Z.leb_spec 0 e); [|lia].
+      assert (E10 : M * 5 ^ e * 2 ^ e = M * 10 ^ e).
+      { rewrite <- Z.mul_assoc. f_equal. rewrite <- Z.pow_mul_l. reflexivity. }
+      rewrite E10.
+      replace (Z.max 0 e) with e in * by lia. replace (Z.max 0 (k - ex)) with 0 by lia.
+      change (10 ^ 0) with 1. rewrite Z.div_1_r.
+      assert (0 < 10 ^ e) by (apply Z.pow_pos_nonneg; lia).
+      assert (HB : M * 10 ^ e * 10 ^ dd * (2 * 2 ^ (code_prec - 1) + 1) < 2 ^ (code_prec - 1) * 2 ^ (code_prec - 1)) by lia.
+      rewrite (trunc_mul_round code_prec neg (M * 10 ^ e) 1 (10 ^ dd) ltac:(nia) ltac:(lia) HT Hprec HB).
+      rewrite ?Z.div_1_r. reflexivity.
+Qed.
+
+(* instances: "1e5" = 100000 tokens, "1.5E-3" = 0.0015 tokens, "12345678901234567890e-20" *)
+Example exponent_examples :
+  str_to_bigint [49; 101; 53]%N = Ok (100000 * 10 ^ 18) /\
+  str_to_bigint [49; 46; 53; 69; 45; 51]%N = Ok 1500000000000000.
+Proof. split; vm_compute; reflexivity. Qed.
